@@ -122,8 +122,9 @@ class Ctx:
         ev = {"property_id": self.pid, "tier": self.tier, "seed": self.seed, "level": "model_checking",
               "coverage": cov, "assumptions": self.assumptions,
               "wall_s": round(time.time() - self.t0, 2), "violations": len(self.violations)}
-        with open(os.path.join(VERIF, "evidence", self.pid + ".json"), "w") as f:
-            json.dump(ev, f, indent=1, default=str)
+        if not os.environ.get("VERIF_NO_EVIDENCE"):
+            with open(os.path.join(VERIF, "evidence", self.pid + ".json"), "w") as f:
+                json.dump(ev, f, indent=1, default=str)
         for fp, n in sorted(self.known_hits.items()):
             print("KNOWN-FINDING: property=%s %s (%d scenarios) %s" % (self.pid, fp, n, self.known[(self.pid, fp)]))
         rc = 0
